@@ -7,6 +7,7 @@ import (
 	"encoding/csv"
 	"errors"
 	"fmt"
+	"io"
 	"math/big"
 	"net/url"
 	"os"
@@ -537,7 +538,14 @@ func (svr *StrictServerImpl) loadCsvTrustMatrix(
 	}
 	var entries []sparse.CooEntry
 	var size = 0
-	for record, err := r.Read(); err == nil; record, err = r.Read() {
+	for {
+		record, err := r.Read()
+		if err == io.EOF {
+			break
+		}
+		if err != nil {
+			return nil, fmt.Errorf("cannot read CSV record: %w", err)
+		}
 		if len(record) != 3 {
 			return nil, fmt.Errorf("invalid CSV record %#v", record)
 		}
@@ -552,6 +560,9 @@ func (svr *StrictServerImpl) loadCsvTrustMatrix(
 		v, err := strconv.ParseFloat(record[2], 64)
 		if err != nil {
 			return nil, fmt.Errorf("invalid v=%#v: %w", record[2], err)
+		}
+		if i < 0 || j < 0 {
+			return nil, fmt.Errorf("negative index in CSV record %#v", record)
 		}
 		if size < i+1 {
 			size = i + 1
@@ -670,7 +681,14 @@ func (svr *StrictServerImpl) loadCsvTrustVector(
 	}
 	var entries []sparse.Entry
 	var size = 0
-	for record, err := r.Read(); err == nil; record, err = r.Read() {
+	for {
+		record, err := r.Read()
+		if err == io.EOF {
+			break
+		}
+		if err != nil {
+			return nil, fmt.Errorf("cannot read CSV record: %w", err)
+		}
 		if len(record) != 2 {
 			return nil, fmt.Errorf("invalid CSV record %#v", record)
 		}
@@ -681,6 +699,9 @@ func (svr *StrictServerImpl) loadCsvTrustVector(
 		v, err := strconv.ParseFloat(record[1], 64)
 		if err != nil {
 			return nil, fmt.Errorf("invalid v=%#v: %w", record[1], err)
+		}
+		if i < 0 {
+			return nil, fmt.Errorf("negative index in CSV record %#v", record)
 		}
 		if size < i+1 {
 			size = i + 1
